@@ -3,11 +3,12 @@
 Require Extraction.
 Require ExtrOcamlBasic.
 From Coq Require Import ZArith NArith.
-From GV Require Import Front.Token Front.Parse Front.Print Front.Lex Front.LexStr.
+From GV Require Import Front.Token Front.Parse Front.Print Front.Lex Front.LexStr Front.Stat.
 Extraction Language OCaml.
 Extraction "model.ml" Z.add N.add Nat.add Pos.add
   Token.binop_of Token.unop_of Token.level
   Parse.parse Parse.parse_fuel Parse.fuel_for Parse.new_binop Parse.unflatten
   Print.print Print.norm Print.plain Print.size
   Lex.s_dec Lex.s_hex Lex.go_dec Lex.go_hex
-  LexStr.unescape LexStr.quote LexStr.long_denot LexStr.normalize_nl.
+  LexStr.unescape LexStr.quote LexStr.long_denot LexStr.normalize_nl
+  Stat.parse_chunk.
